@@ -15,7 +15,7 @@ use std::pin::Pin;
 use std::sync::atomic::{AtomicBool, Ordering};
 use std::sync::{Arc, Mutex};
 use std::task::{Context, Poll, Wake, Waker};
-use tokio::io::{AsyncRead, AsyncWrite, ReadBuf};
+use tokio::io::{AsyncBufRead, AsyncRead, AsyncWrite, ReadBuf};
 
 pub const MALFORMED: u64 = 999_999;
 
@@ -93,6 +93,113 @@ pub struct Cfg {
     pub bind_q: usize,
     pub retries: usize,
     pub rng: Vec<u32>,
+}
+
+/// what the scripted local side of a bridge does next
+#[derive(Default)]
+pub struct LocalState {
+    /// read side: 0 data, 1 eof (sticky), 2 error (once)
+    rq: VecDeque<(u8, Vec<u8>)>,
+    /// write side: (0, k) accept k bytes, (1, _) pending once, (2, _) error once; empty = accept all
+    wq: VecDeque<(u8, usize)>,
+    /// shutdown: 1 pending once, 2 error once; empty = ok
+    sq: VecDeque<u8>,
+    written: Vec<u8>,
+    shutdown_done: bool,
+    waker: Option<Waker>,
+}
+
+pub struct LocalSide {
+    st: Arc<Mutex<LocalState>>,
+    cur: Vec<u8>,
+}
+
+fn ioerr() -> std::io::Error {
+    std::io::Error::new(std::io::ErrorKind::ConnectionReset, "injected")
+}
+
+impl AsyncRead for LocalSide {
+    fn poll_read(self: Pin<&mut Self>, _cx: &mut Context<'_>, _buf: &mut ReadBuf<'_>) -> Poll<std::io::Result<()>> {
+        unreachable!("the bridge reads through AsyncBufRead")
+    }
+}
+impl AsyncBufRead for LocalSide {
+    fn poll_fill_buf(self: Pin<&mut Self>, cx: &mut Context<'_>) -> Poll<std::io::Result<&[u8]>> {
+        let this = self.get_mut();
+        if this.cur.is_empty() {
+            let mut st = this.st.lock().unwrap();
+            match st.rq.front().map(|x| x.0) {
+                None => {
+                    st.waker = Some(cx.waker().clone());
+                    return Poll::Pending;
+                }
+                Some(0) => {
+                    let (_, d) = st.rq.pop_front().unwrap();
+                    this.cur = d;
+                    if this.cur.is_empty() {
+                        // an empty chunk is not representable (it would read as EOF): skip it
+                        drop(st);
+                        return Pin::new(this).poll_fill_buf(cx);
+                    }
+                }
+                Some(1) => return Poll::Ready(Ok(&[])),
+                Some(_) => {
+                    st.rq.pop_front();
+                    return Poll::Ready(Err(ioerr()));
+                }
+            }
+        }
+        Poll::Ready(Ok(&this.cur))
+    }
+    fn consume(self: Pin<&mut Self>, amt: usize) {
+        let this = self.get_mut();
+        this.cur.drain(..amt.min(this.cur.len()));
+    }
+}
+impl AsyncWrite for LocalSide {
+    fn poll_write(self: Pin<&mut Self>, cx: &mut Context<'_>, buf: &[u8]) -> Poll<std::io::Result<usize>> {
+        let mut st = self.st.lock().unwrap();
+        match st.wq.pop_front() {
+            None => {
+                st.written.extend_from_slice(buf);
+                Poll::Ready(Ok(buf.len()))
+            }
+            Some((0, k)) => {
+                let k = k.max(1).min(buf.len());
+                st.written.extend_from_slice(&buf[..k]);
+                Poll::Ready(Ok(k))
+            }
+            Some((1, _)) => {
+                st.waker = Some(cx.waker().clone());
+                Poll::Pending
+            }
+            Some(_) => Poll::Ready(Err(ioerr())),
+        }
+    }
+    fn poll_flush(self: Pin<&mut Self>, _cx: &mut Context<'_>) -> Poll<std::io::Result<()>> {
+        Poll::Ready(Ok(()))
+    }
+    fn poll_shutdown(self: Pin<&mut Self>, cx: &mut Context<'_>) -> Poll<std::io::Result<()>> {
+        let mut st = self.st.lock().unwrap();
+        match st.sq.pop_front() {
+            None => {
+                st.shutdown_done = true;
+                Poll::Ready(Ok(()))
+            }
+            Some(1) => {
+                st.waker = Some(cx.waker().clone());
+                Poll::Pending
+            }
+            Some(_) => Poll::Ready(Err(ioerr())),
+        }
+    }
+}
+
+struct BridgeInst {
+    e: usize,
+    fut: Option<Pin<Box<dyn Future<Output = std::io::Result<(usize, usize)>> + Send>>>,
+    local: Arc<Mutex<LocalState>>,
+    seen_written: usize,
 }
 
 struct Ep {
@@ -199,6 +306,7 @@ pub struct World {
     link: [VecDeque<Message>; 2],
     out: Vec<u64>,
     pending_deliver: Option<usize>,
+    bridges: Vec<BridgeInst>,
 }
 
 const K_READ: u64 = 1;
@@ -211,7 +319,7 @@ const K_NEXTBIND: u64 = 7;
 
 impl World {
     pub fn new(a: &Cfg, b: &Cfg) -> Self {
-        let mut w = Self { eps: [Ep::new(0, a), Ep::new(1, b)], link: [VecDeque::new(), VecDeque::new()], out: Vec::new(), pending_deliver: None };
+        let mut w = Self { eps: [Ep::new(0, a), Ep::new(1, b)], link: [VecDeque::new(), VecDeque::new()], out: Vec::new(), pending_deliver: None, bridges: Vec::new() };
         // first poll of both tasks (registers their wakers); nothing is emitted
         let mut done = Vec::new();
         w.settle(&mut done);
@@ -373,6 +481,12 @@ impl World {
     }
     pub fn fids(&self, e: usize) -> &[u64] {
         &self.eps[e].all_fids
+    }
+    pub fn n_bridges(&self) -> usize {
+        self.bridges.len()
+    }
+    pub fn bridge_live(&self, k: usize) -> bool {
+        self.bridges.get(k).is_some_and(|b| b.fut.is_some())
     }
     pub fn out_len(&self) -> usize {
         self.out.len()
@@ -683,6 +797,71 @@ impl World {
                 }
                 Some(vec![0])
             }
+            30 => {
+                // BridgeStart e sid: the stream moves into a bridge with a scripted local side
+                let e = *a.first()? as usize;
+                let sid = *a.get(1)? as usize;
+                let ep = &mut self.eps[e];
+                let Some(slot) = ep.streams.get_mut(sid) else { return Some(vec![3]) };
+                let Some(stream) = slot.take() else { return Some(vec![3]) };
+                let stream: MuxStream = *Pin::into_inner(stream);
+                let local = Arc::new(Mutex::new(LocalState::default()));
+                let side = LocalSide { st: local.clone(), cur: Vec::new() };
+                let fut = stream.into_copy_bidirectional_with_buf(side);
+                let k = self.bridges.len();
+                self.bridges.push(BridgeInst { e, fut: Some(Box::pin(fut)), local, seen_written: 0 });
+                Some(vec![0, k as u64])
+            }
+            31 => {
+                let k = *a.first()? as usize;
+                let Some(b) = self.bridges.get_mut(k) else { return Some(vec![3]) };
+                let Some(fut) = b.fut.as_mut() else { return Some(vec![3]) };
+                let e = b.e;
+                let w = self.eps[e].waker(8, k);
+                let mut cx = Context::from_waker(&w);
+                let mut o = match fut.as_mut().poll(&mut cx) {
+                    Poll::Pending => vec![1],
+                    Poll::Ready(r) => {
+                        b.fut = None;
+                        match r {
+                            Ok((r, w)) => vec![0, r as u64, w as u64],
+                            Err(er) => vec![2, io_code(&er)],
+                        }
+                    }
+                };
+                let st = b.local.lock().unwrap();
+                let newly = st.written[b.seen_written..].to_vec();
+                b.seen_written = st.written.len();
+                put_lp(&mut o, &newly);
+                o.push(u64::from(st.shutdown_done));
+                Some(o)
+            }
+            32 => {
+                // LocalFeed k kind [arg]
+                let k = *a.first()? as usize;
+                let kind = *a.get(1)?;
+                let Some(b) = self.bridges.get(k) else { return Some(vec![3]) };
+                let mut st = b.local.lock().unwrap();
+                match kind {
+                    0 => {
+                        let d = lp_at(a, 2)?;
+                        st.rq.push_back((0, d));
+                    }
+                    1 => st.rq.push_back((1, vec![])),
+                    2 => st.rq.push_back((2, vec![])),
+                    3 => st.wq.push_back((0, *a.get(2)? as usize)),
+                    4 => st.wq.push_back((1, 0)),
+                    5 => st.wq.push_back((2, 0)),
+                    6 => st.sq.push_back(1),
+                    7 => st.sq.push_back(2),
+                    _ => {}
+                }
+                // readiness changed: wake whoever waits on the local side
+                if let Some(w) = st.waker.take() {
+                    w.wake();
+                }
+                Some(vec![0])
+            }
             _ => None,
         }
     }
@@ -736,6 +915,7 @@ impl World {
 fn io_code(e: &std::io::Error) -> u64 {
     match e.kind() {
         std::io::ErrorKind::BrokenPipe => 1,
+        std::io::ErrorKind::ConnectionReset => 7,
         _ => 99,
     }
 }
